@@ -278,6 +278,16 @@ static void c10_case (long idx, vf_rng *r)
                   vf_violation (key, "x=%d channel %d (r,g,b,a): single-pixel reader %.7f, scanline reader %.7f", off + i, c, g2[4 * i + c], g[4 * i + c]); bad = 1; break; } }
               ne += 4; if (bad) break; }
           pixman_image_unref (d2); vf_buf_free (&D2); }
+        /* a 1x1 repeating image holding the value (the library treats it like a solid colour): same widening */
+        if (!rp_is_float (f) && bpp <= 32) for (int i = 0; i < n && i < 24; i++) {
+            vf_buf O, F1; if (!vf_buf_alloc (&O, f, 1, 1, 0, 0, VF_PLACE_END)) break; if (!vf_buf_alloc (&F1, PIXMAN_rgba_float, 3, 1, 0, 0, VF_PLACE_END)) { vf_buf_free (&O); break; }
+            vf_put_px (vf_buf_row (&O, 0), bpp, 0, vals[i]); pixman_image_t *oi = vf_buf_image (&O), *fi = vf_buf_image (&F1); if (pal) pixman_image_set_indexed (oi, pal);
+            pixman_image_set_repeat (oi, PIXMAN_REPEAT_NORMAL); src_to (oi, fi, 0, 3);
+            const float *q = (const float *)F1.base + 4; ne += 4;       /* the middle pixel */
+            for (int c = 0; c < 4; c++) { double tol = rp_is_srgb (f) && c < 3 ? 2e-3 : 2e-6; if (fabs ((double)q[c] - (double)g[4 * i + c]) > tol) { snprintf (key, sizeof key, "C10:float-1x1-repeat-vs-scanline:%s", rp_name (f));
+                vf_violation (key, "value %x channel %d (r,g,b,a): %.7f read from a 1x1 repeating image, %.7f from a row", vals[i], c, q[c], g[4 * i + c]); i = n; break; } }
+            pixman_image_unref (oi); pixman_image_unref (fi); vf_buf_free (&O); vf_buf_free (&F1);
+        }
         vf_count ("evaluations", ne); vf_cell ("cells", vf_mix (vf_mix (2, (uint64_t)f), vf_mix (chunk, off)));
         pixman_image_unref (d); vf_buf_free (&D);
     }
@@ -293,6 +303,17 @@ static void c10_case (long idx, vf_rng *r)
         long w0 = acc_writes; acc_oob = 0;
         vf_inflight ("%s format=%s via accessors", kname[kind], rp_name (f));
         pixman_image_composite32 (PIXMAN_OP_SRC, ai, NULL, d2, 0, 0, 0, 0, off, 0, n, 1);
+        /* a colour stored by the direct-fill entry point narrows the same way as compositing a solid image of that colour */
+        if (!rp_is_indexed (f) && bpp <= 32) for (int k = 0; k < 6; k++) {
+            vf_buf E1, E2; if (!vf_buf_alloc (&E1, f, 9, 2, 0, 0, VF_PLACE_END)) break; if (!vf_buf_alloc (&E2, f, 9, 2, 0, 0, VF_PLACE_END)) { vf_buf_free (&E1); break; }
+            memset (E1.base, 0, E1.bytes); memset (E2.base, 0, E2.bytes);
+            pixman_color_t c; c.alpha = k == 0 ? 0x8000 : k == 1 ? 0x7fff : k == 2 ? 0x0100 : (uint16_t)vf_next (r); c.red = (uint16_t)vf_next (r); c.green = (uint16_t)vf_next (r); c.blue = (uint16_t)vf_next (r);
+            pixman_image_t *e1 = vf_buf_image (&E1), *e2 = vf_buf_image (&E2), *so = pixman_image_create_solid_fill (&c); pixman_box32_t bx = { 1, 0, 8, 2 };
+            pixman_image_fill_boxes (PIXMAN_OP_SRC, e1, &c, 1, &bx); if (so) pixman_image_composite32 (PIXMAN_OP_SRC, so, NULL, e2, 0, 0, 0, 0, 1, 0, 7, 2);
+            uint32_t p1 = vf_get_px (vf_buf_row (&E1, 1), bpp, 4) & dmask, p2 = vf_get_px (vf_buf_row (&E2, 1), bpp, 4) & dmask;
+            if (so && p1 != p2) { snprintf (key, sizeof key, "C10:fill-colour-narrowing:%s", rp_name (f)); vf_violation (key, "colour (a=%04x r=%04x g=%04x b=%04x) is stored as %x by fill_boxes, %x by compositing a solid image", c.alpha, c.red, c.green, c.blue, p1, p2); k = 6; }
+            if (so) pixman_image_unref (so); pixman_image_unref (e1); pixman_image_unref (e2); vf_buf_free (&E1); vf_buf_free (&E2);
+        }
         long ne = 0; int wide = rp_is_wide (f);
         for (int i = 0; i < n; i++) {
             uint32_t got = vf_get_px (vf_buf_row (&D, 0), bpp, off + i), got2 = vf_get_px (vf_buf_row (&D2, 0), bpp, off + i); ne += 2;
